@@ -1420,7 +1420,53 @@ fn search_parse_diag(obs: &[&str]) {
     }
 }
 
+// C16 (activation clause): `Connection::with_activate(<real varlink-certification binary> --varlink=$VARLINK_ADDRESS)` followed by one GetInfo call, run in a
+// child process of its own process group (a hang between fork and exec would otherwise leave a stuck process behind): it must answer within 10 s.
+fn activation_probe(cmd: &str) -> i32 {
+    use varlink::OrgVarlinkServiceInterface;
+    match varlink::Connection::with_activate(cmd) {
+        Err(e) => { eprintln!("with_activate failed: {:?}", e.kind()); 2 }
+        Ok(conn) => {
+            let mut c = varlink::OrgVarlinkServiceClient::new(conn);
+            match c.get_info() { Ok(i) => { println!("OK {}", i.vendor); 0 } Err(e) => { eprintln!("GetInfo through the activated service failed: {:?}", e.kind()); 3 } }
+        }
+    }
+}
+fn search_activation(obs: &[&str]) {
+    use std::os::unix::process::CommandExt;
+    let mut found: Option<Value> = None;
+    let mut explored = 0usize;
+    let bin = match std::env::var("VX_CERT_BIN") { Ok(b) if std::path::Path::new(&b).exists() => b, _ => {
+        for ob in obs { println!("{}", json!({"obligation": ob, "found": false, "explored": 0, "detail": Value::Null, "note": "VX_CERT_BIN not built"})); }
+        return;
+    } };
+    let me = std::env::current_exe().unwrap();
+    let service_cmd = format!("{} --varlink=$VARLINK_ADDRESS", bin);
+    explored += 1;
+    let mut cmd = std::process::Command::new(&me);
+    cmd.arg("--activation-probe").arg(&service_cmd).stdin(std::process::Stdio::null()).stdout(std::process::Stdio::piped()).stderr(std::process::Stdio::piped()).process_group(0);
+    if let Ok(mut child) = cmd.spawn() {
+        let pgid = child.id() as i32;
+        let t0 = std::time::Instant::now();
+        let mut status = None;
+        while t0.elapsed() < Duration::from_secs(10) { if let Ok(Some(st)) = child.try_wait() { status = Some(st); break; } std::thread::sleep(Duration::from_millis(20)); }
+        extern "C" { fn kill(pid: i32, sig: i32) -> i32; }
+        unsafe { kill(-pgid, 9); }
+        let out = child.wait_with_output().ok();
+        let (so, se) = out.map(|o| (String::from_utf8_lossy(&o.stdout).to_string(), String::from_utf8_lossy(&o.stderr).to_string())).unwrap_or_default();
+        match status {
+            None => { found = Some(json!({"call": "Connection::with_activate(\"<varlink-certification> --varlink=$VARLINK_ADDRESS\") + GetInfo", "observed": "no answer within 10 s (killed)", "stderr": se})); }
+            Some(st) if !st.success() => { found = Some(json!({"call": "Connection::with_activate(\"<varlink-certification> --varlink=$VARLINK_ADDRESS\") + GetInfo", "observed": format!("probe exited with {:?}", st.code()), "stdout": so, "stderr": se.chars().take(600).collect::<String>()})); }
+            _ => {}
+        }
+    }
+    for ob in obs { emit(ob, found.is_some(), explored, found.clone().unwrap_or(Value::Null)); }
+}
+
 fn main() {
+    if std::env::args().nth(1).as_deref() == Some("--activation-probe") {
+        std::process::exit(activation_probe(&std::env::args().nth(2).unwrap_or_default()));
+    }
     let pat = std::env::args().nth(1).unwrap_or_else(|| "*".to_string());
     let m = |ob: &str| -> bool {
         if pat == "*" { return true; }
@@ -1458,6 +1504,8 @@ fn main() {
     if !cli.is_empty() { search_cli(&cli); }
     let br: Vec<&str> = ["C18.relay", "C18.copy", "C18.request", "C18.getinfo", "C18.oneway", "C18.no-panic"].iter().cloned().filter(|o| m(o)).collect();
     if !br.is_empty() { search_bridge(&br); }
+    let act: Vec<&str> = ["C16.pre-exec-safe", "C16.activation-fd", "C16.activation-env"].iter().cloned().filter(|o| m(o)).collect();
+    if !act.is_empty() { search_activation(&act); }
     let pd: Vec<&str> = ["C12.line", "C12.no-panic"].iter().cloned().filter(|o| m(o)).collect();
     if !pd.is_empty() { search_parse_diag(&pd); }
     let gen: Vec<&str> = ["C08.dispatch", "C08.method-name", "C08.args", "C08.client", "C08.no-panic"].iter().cloned().filter(|o| m(o)).collect();
